@@ -447,6 +447,12 @@ func c04Gen(k int, decorate bool, emit func(core.Case)) {
 				emit(core.Case{Fam: "chain", N: append([]int{-1, 0, deco}, ops...)})
 			}
 			emit(core.Case{Fam: "chain", N: append([]int{0, 0, 1}, ops...)})
+			// a unary operator as the first token of a conditional's branch: p ? y : not a .., p ? y : r ? z : - a .., p ? + a .. : z
+			for deco := 2; deco <= 4; deco++ {
+				for u := 0; u < 3; u++ {
+					emit(core.Case{Fam: "chain", N: append([]int{0, u, deco}, ops...)})
+				}
+			}
 		}
 		_ = operands
 		j := k - 1
